@@ -6,7 +6,7 @@ P="$1"; shift
 PROPS="$*"
 T=/tmp/devtree; V=/tmp/devtree-verif
 rm -rf $T $V; mkdir -p $T $V; cp /verif/known_findings.txt $V/
-rsync -a --exclude .git /repo/ $T/ || exit 2
+git -C /repo archive HEAD | tar -x -C $T || exit 2   # the committed state: the working tree may be patched by a running seed matrix
 ( cd $T && patch -p1 -s < "$P" ) || { echo "patch does not apply"; rm -rf $T $V; exit 2; }
 if [ -z "$PROPS" ]; then
   /tmp/rv-dev -all -repo $T -verif $V 2>&1 | awk '
